@@ -98,8 +98,12 @@ def selftest(pid):
         from rules import runner, props
         known = {k["key"] for k in runner.load_known() if k.get("status") == "known"}
         seeds = sorted(glob.glob(os.path.join(ROOT, "seeded", pid + "-*", "patch.diff")))
-        benign = sorted(glob.glob(os.path.join(ROOT, "selftest", "benign", "*.diff")))
-        out = {"mutants": {}, "benign": {}}
+        benign_all = sorted(glob.glob(os.path.join(ROOT, "selftest", "benign", "*.diff")))
+        # a deterministic sample keeps the thorough tier at a few minutes per property; the whole
+        # corpus is run by selftest/benign_matrix.py (results in DESIGN.md 10.3)
+        step = max(1, len(benign_all) // 24)
+        benign = benign_all[::step][:24]
+        out = {"mutants": {}, "benign": {}, "benign_corpus_size": len(benign_all), "benign_sampled": len(benign)}
 
         def one(job):
             kind, f = job
@@ -122,13 +126,13 @@ def selftest(pid):
 
         from concurrent.futures import ThreadPoolExecutor
         jobs = [("mutants", f) for f in seeds] + [("benign", f) for f in benign]
-        with ThreadPoolExecutor(max_workers=6) as ex:
+        with ThreadPoolExecutor(max_workers=8) as ex:
             for kind, name, v in ex.map(one, jobs):
                 out[kind][name] = v
         caught = sum(1 for v in out["mutants"].values() if isinstance(v, list) and v)
         silent = sum(1 for v in out["benign"].values() if isinstance(v, list) and not v)
         rep.stats["selftest"] = out
-        rep.ok("SELFTEST", "sensitivity", "", "checker self-test on scratch copies of this tree: %d/%d seeded mutants of %s reported, %d/%d behaviour-preserving refactors silent (details in coverage.selftest)" % (caught, len(out["mutants"]), pid, silent, len(out["benign"])), nontrivial=False)
+        rep.ok("SELFTEST", "sensitivity", "", "checker self-test on scratch copies of this tree: %d/%d seeded mutants of %s reported, %d/%d behaviour-preserving refactors (a sample of the corpus of %d) silent (details in coverage.selftest)" % (caught, len(out["mutants"]), pid, silent, len(out["benign"]), len(benign_all)), nontrivial=False)
     return fn
 
 
